@@ -11,6 +11,7 @@ import (
 	"fmt"
 	"os"
 	"os/exec"
+	"strconv"
 	"strings"
 	"time"
 	"unicode"
@@ -96,6 +97,21 @@ func sgrCheckDump(p []byte, ownLines int) string {
 	return ""
 }
 
+// c06User renders itself through the exported encoder interface.
+type c06User struct {
+	name string
+	id   int
+}
+
+func (u c06User) MarshalSlogObject(enc *slog.PrintCtx) error {
+	enc.Begin()
+	enc.AddString("name", u.name)
+	enc.AddComma()
+	enc.AddInt("id", u.id)
+	enc.End(false)
+	return nil
+}
+
 func runC06(r *run) {
 	g := &rng{s: r.seed*217645177 + 6}
 	slog.VerifResetGlobals()
@@ -123,6 +139,7 @@ func runC06(r *run) {
 			msg = "日本語 héllo " + msg
 		}
 		c.msg = msg
+		ownTag := ""
 		if g.chance(1, 2) {
 			c.name = []string{"app", "db.conn"}[g.intn(2)]
 		}
@@ -160,6 +177,9 @@ func runC06(r *run) {
 			}
 			r.emit(fmt.Sprintf("C17 reg %d %s %s %s %s %s %s %s %d %d 12 0", v, hxs(title), hxs(tags[0]), hxs(tags[1]), hxs(tags[2]), hxs(tags[3]), hxs(tags[4]), hxs(tags[5]), clr, bg), "ok")
 			c.lvl = v
+			if tags[c.tagW] != "" {
+				ownTag = tags[c.tagW] // the tag the registration gave for this width, whatever the library would answer
+			}
 		}
 		if g.chance(1, 7) {
 			// a top-level attribute named like the reserved field and holding a time.Time, half of the time as the
@@ -271,6 +291,9 @@ func runC06(r *run) {
 			want += c.name + " "
 		}
 		tag := slog.Level(c.lvl).ShortTag(c.tagW)
+		if ownTag != "" {
+			tag = ownTag
+		}
 		firstMsg := strings.TrimRight(c.msg, "\n\r")
 		if strings.HasSuffix(c.msg, "\n") == false {
 			firstMsg = c.msg
@@ -324,6 +347,30 @@ func runC06(r *run) {
 		}
 		if i < 4 {
 			r.sample(map[string]any{"record": encDescribe(c), "stripped": string(plain)})
+		}
+	}
+	// values that render themselves through the exported encoder interface (ObjectMarshaller: Begin / AddString / AddInt /
+	// End): what they hand to AddString is quoted like every string-like value, in colored mode too
+	for k, evil := range []string{"bob", "a\x1b[31mred", "line\nbreak", "bell\x07", "q\"uote", "c1\u009bcsi"} {
+		rec := &recorder{}
+		l := slog.New(fmt.Sprintf("c06obj-%d", k)).SetWriter(rec).SetErrorWriter(rec).SetLevel(slog.InfoLevel).SetColorMode(true)
+		l.Info("an object that marshals itself", "user", c06User{name: evil, id: k})
+		w := rec.take()
+		r.seen(fmt.Sprintf("object-marshaller|%d", k))
+		if len(w) != 1 {
+			r.violate(violation{What: "a colored record with a self-marshalling value was not delivered as one write", Input: map[string]any{"name": fmt.Sprintf("%q", evil)}, Actual: len(w)})
+			continue
+		}
+		plain := reAnsi.ReplaceAll(w[0], nil)
+		ctl := 0
+		for _, ru := range string(plain) {
+			if unicode.IsControl(ru) && ru != '\n' {
+				ctl++
+			}
+		}
+		if d := sgrCheck(w[0]); d != "" || ctl > 0 || bytes.Count(plain, []byte{'\n'}) != 1 || !bytes.Contains(plain, []byte("name="+strconv.Quote(evil))) {
+			r.violate(violation{What: "a string handed to the encoder's AddString by a self-marshalling value is not quoted in colored mode (raw control or escape bytes reach the record)",
+				Input: map[string]any{"value": "ObjectMarshaller{AddString(\"name\", s); AddInt(\"id\", n)}", "s": fmt.Sprintf("%q", evil)}, Expected: "name=" + strconv.Quote(evil), Actual: fmt.Sprintf("%q", w[0])})
 		}
 	}
 	// in go-test mode an error value with a stack trace is followed by a dump of its origin inside the
